@@ -174,6 +174,13 @@ def end_to_end(seq, cuts):
 def main():
     if REPLAY is not None:
         c = REPLAY
+        if c["kind"] == "decode":
+            import struct
+            from watchdog.observers.inotify_c import Inotify
+            want = [(r[0], r[1], r[2], r[3].encode()) for r in c["records"]]
+            buf = b"".join(struct.pack("iIII", wd, mask, ck, (len(nm) + 4) // 4 * 4 if nm else 0) + (nm + b"\0" * ((len(nm) + 4) // 4 * 4 - len(nm)) if nm else b"") for wd, mask, ck, nm in want)
+            got = list(Inotify._parse_event_buffer(buf))
+            replay_result(got != want, [f"decoded {got}, written {want}"])
         if c["kind"] == "dq":
             import c17_battery
             pr = c17_battery.SCEN[c["name"]]()
@@ -211,6 +218,19 @@ def main():
                 pr = end_to_end(list(spec), set(cuts))
                 if pr:
                     bat.fail("C08.end-to-end", pr[0], {"kind": "e2e", "seq": [list(x) for x in spec], "cuts": list(cuts), "problems": pr[:2]}, "InotifyBuffer.run")
+    # every record of a read batch is decoded (nameless records - events on the watched object itself - in every position)
+    import struct
+    from watchdog.observers.inotify_c import Inotify
+    shapes = [b"", b"a\0\0\0", b"abcdefghijklmno\0", b"x" * 17 + b"\0" * 15]
+    for n in range(1, 4):
+        for combo in itertools.product(shapes, repeat=n):
+            recs = [(i + 1, 0x100 << i, 5 * i, body) for i, body in enumerate(combo)]
+            buf = b"".join(struct.pack("iIII", wd, mask, ck, len(body)) + body for wd, mask, ck, body in recs)
+            bat.case(("decode", combo))
+            got = list(Inotify._parse_event_buffer(buf))
+            want = [(wd, mask, ck, body.rstrip(b"\0")) for wd, mask, ck, body in recs]
+            if got != want:
+                bat.fail("C08.read-batch-decoder", f"a read batch with records {want} is decoded as {got}: a notification read from the kernel is lost or altered", {"kind": "decode", "records": [[r[0], r[1], r[2], r[3].decode()] for r in want]}, "Inotify._parse_event_buffer")
     # the timing / cross-thread clauses are DelayedQueue's (C17): its scripted interleavings are run here as well
     import c17_battery
     for name, fn in c17_battery.SCEN.items():
